@@ -11,6 +11,7 @@ import (
 	"fmt"
 	"go/constant"
 	"go/token"
+	"go/types"
 	"sort"
 	"strings"
 
@@ -47,7 +48,7 @@ func evalKnow(fi *FactInfo, p, s *ssa.BasicBlock, v ssa.Value, k knowMap, depth 
 	if v == nil || depth > 4 {
 		return 0
 	}
-	if r, ok := k[v]; ok {
+	if r, ok := k[v]; ok && (r == 1 || r == -1) {
 		return r
 	}
 	switch x := v.(type) {
@@ -157,9 +158,12 @@ func stepKnow(fi *FactInfo, p, s *ssa.BasicBlock, k knowMap) knowMap {
 		}
 	}
 	for i, ph := range phis {
-		if vals[i] != 0 {
+		switch {
+		case vals[i] != 0:
 			nk[ph] = vals[i]
-		} else {
+		case idx >= 0 && idx < 100 && isBoolType(ph.Type()):
+			nk[ph] = int8(10 + idx) // undecided condition: remember which computation it stands for
+		default:
 			delete(nk, ph)
 		}
 	}
@@ -200,6 +204,8 @@ type pathSearch struct {
 	fi       *FactInfo
 	start    *ssa.BasicBlock
 	startIdx int
+	// startKnow: path knowledge at the start (e.g. from the edge through which the start block is entered)
+	startKnow knowMap
 	// stop: the path ends here without a result (the thing to pass was passed)
 	stop func(in ssa.Instruction) bool
 	// target: the path has reached what must not be reachable
@@ -231,7 +237,11 @@ func (ps *pathSearch) run() bool {
 		st  pathState
 		idx int
 	}
-	work := []item{{pathState{ps.start, knowMap{}}, ps.startIdx}}
+	k0 := ps.startKnow
+	if k0 == nil {
+		k0 = knowMap{}
+	}
+	work := []item{{pathState{ps.start, k0}, ps.startIdx}}
 	for len(work) > 0 {
 		it := work[len(work)-1]
 		work = work[:len(work)-1]
@@ -262,8 +272,13 @@ func (ps *pathSearch) run() bool {
 			continue
 		}
 		for _, s := range feasibleSuccs(ps.fi, b, it.st.k) {
-			if ps.skipEdge != nil && ps.skipEdge(b, s) {
-				continue
+			if ps.skipEdge != nil {
+				pathEdge.from, pathEdge.to, pathEdge.cond = b, s, resolveCond(b, it.st.k)
+				skip := ps.skipEdge(b, s)
+				pathEdge.from, pathEdge.to, pathEdge.cond = nil, nil, nil
+				if skip {
+					continue
+				}
 			}
 			nk := stepKnow(ps.fi, b, s, it.st.k)
 			if len(ps.Reached[s]) >= maxStatesPerBlock {
@@ -297,4 +312,44 @@ func returnIsFailure(fi *FactInfo, r *ssa.Return, ei int, k knowMap) bool {
 		return true
 	}
 	return classifyErr(fi, r.Block(), v, 0) == errNonNil
+}
+
+// edgeLeadsOnlyToFailure: every path that begins by taking the edge from -> to ends in a return with a
+// non-nil error (result ei) or a panic.
+func edgeLeadsOnlyToFailure(fi *FactInfo, from, to *ssa.BasicBlock, ei int) bool {
+	ps := &pathSearch{fn: to.Parent(), fi: fi, start: to, startKnow: stepKnow(fi, from, to, knowMap{})}
+	ps.atReturn = func(r *ssa.Return, k knowMap) bool { return !returnIsFailure(fi, r, ei, k) }
+	return !ps.run()
+}
+
+func isBoolType(t types.Type) bool {
+	b, ok := t.Underlying().(*types.Basic)
+	return ok && b.Info()&types.IsBoolean != 0
+}
+
+// resolveCond: the branch condition of b, with a condition phi replaced by the value it took on this path.
+func resolveCond(b *ssa.BasicBlock, k knowMap) ssa.Value {
+	if len(b.Instrs) == 0 {
+		return nil
+	}
+	iff, ok := b.Instrs[len(b.Instrs)-1].(*ssa.If)
+	if !ok {
+		return nil
+	}
+	c := iff.Cond
+	for depth := 0; depth < 4; depth++ {
+		ph, isPhi := c.(*ssa.Phi)
+		if !isPhi {
+			break
+		}
+		r, has := k[ph]
+		if !has || r < 10 || int(r-10) >= len(ph.Edges) {
+			break
+		}
+		c = ph.Edges[r-10]
+	}
+	if c == iff.Cond {
+		return nil
+	}
+	return c
 }
